@@ -22,11 +22,13 @@ EXPLANATION = (
     "site -- and get_details to a dict-returning body), R-DESCRIBE-TEXT (return-kind inference: every "
     "describe returns text or delegates to another describe on all paths), R-FORMAT-SAFE (a %-format "
     "whose right operand is a bare expression that may be the matchee must be dominated by a test "
-    "excluding tuples), R-ASSERT-IFF (nullness abstract interpretation with the matcher's verdict "
-    "symbolic: assertThat/assert_that raise iff the verdict is a mismatch, expectThat never raises but "
-    "sets force_failure; MismatchError.__str__ describes on both arms and quotes the matchee with "
-    "text_repr/repr). The text_repr round trip over all code points is a runtime value property and is "
-    "not decided."
+    "excluding tuples). R-ASSERT-IFF: TestCase.run followed as written (ttsa.rules.casemodel) with a scripted matcher: "
+    "assertThat stops the test with a failure exactly when match() returned a mismatch, the error raised is a MismatchError "
+    "holding the matchee, the matcher, the mismatch and the verbosity; assertions.assert_that likewise; str() of a "
+    "MismatchError built for text / bytes / tuple / other matchees, verbose or not, never raises, is the mismatch's "
+    "description, and quotes text and bytes through text_repr. R-FORCE-HONOURED: expectThat never raises, the stage goes on, "
+    "and the finished test is a failure whatever later stages raise (scenarios shared with C03). The text_repr round trip "
+    "over all code points is a runtime value property and is not decided."
 )
 
 
@@ -224,25 +226,6 @@ def run(ctx):
     # ------------------------------------------------------------------ assert iff mismatch
     check_assert_iff(ctx)
     check_force_honoured(ctx)
-    me = None
-    for c in classes.all:
-        if c.name == "MismatchError" and c.module.name == "testtools.matchers._impl":
-            me = c
-    sf = me.own_method("__str__") if me else None
-    if sf is None:
-        raise AnalysisError("anchor vanished: MismatchError.__str__")
-    g = cfg_of(ctx, sf)
-    lv = live_nodes(g)
-    desc = nodes_calling(g, lambda c: dotted(c.func) == "self.mismatch.describe", lv)
-    esc = g.escape_path([g.entry], set(desc), targets=[g.exit_return]) if desc else [0]
-    ctx.check("R-ASSERT-IFF", "MismatchError.__str__ describes the mismatch on every path", sf, bool(desc) and esc is None,
-              "a path through MismatchError.__str__ does not include mismatch.describe()", construct="testtools.matchers._impl:MismatchError.__str__::describe")
-    quoting = {dotted(c.func) for c in walk_shallow(sf, include_self=False) if isinstance(c, ast.Call)}
-    ctx.check("R-ASSERT-IFF", "verbose arm quotes the matchee with text_repr / repr", sf, {"text_repr", "repr"} <= quoting,
-              "the verbose message no longer renders text matchees with text_repr and others with repr", construct="testtools.matchers._impl:MismatchError.__str__::quote")
-    kinds = function_return_kinds(ctx, me.module, sf)
-    ctx.check("R-ASSERT-IFF", f"MismatchError.__str__ returns text ({sorted(kinds)})", sf, kinds <= {"Text", "DescribeDelegate", "Param", "Attr"} | ({"Text"}),
-              f"__str__ can return {sorted(kinds)}", construct="testtools.matchers._impl:MismatchError.__str__::kinds")
     ctx.assume("no mismatch object is falsy (decided by C06 R-NO-FALSY-MISMATCH)")
 
 
@@ -307,135 +290,120 @@ def check_format_safe(ctx, prop):
     return n
 
 
-class _VerdictDomain(DefaultDomain):
-    """match() yields a symbolic verdict; everything else is opaque and total."""
-
-    def truth(self, value):
-        if value == ("mismatch",):
-            return "T"
-        return super().truth(value)
-
-    def is_none(self, value):
-        if value == ("mismatch",):
-            return "F"
-        return super().is_none(value)
-
-    def __init__(self, classes, receiver):
-        self.classes = classes
-        self.receiver = receiver
-
-    def call(self, interp, call, st, fr):
-        d = dotted(call.func)
-        if isinstance(call.func, ast.Attribute) and call.func.attr == "match":
-            return [val(NONE, st.set("ev.verdict", "none")), val(("mismatch",), st.set("ev.verdict", "mismatch"))]
-        ch = attr_chain(call.func)
-        if ch and ch[0] == "self" and len(ch) == 2 and fr.receiver is not None:
-            owner, f = self.classes.resolve_method(fr.receiver, ch[1])
-            if isinstance(f, FUNC_TYPES) and owner is not None and not owner.external and ch[1] in ("_matchHelper",):
-                params = [p.arg for p in f.args.args][1:]
-                argvals = {}
-                out = []
-                for r in interp.eval_list(list(call.args), st, fr):
-                    if r.kind == "exc":
-                        out.append(r)
-                        continue
-                    for i, v in enumerate(r.value):
-                        if i < len(params):
-                            argvals[params[i]] = v
-                    out.extend(interp.inline(f, argvals, r.state, fr, receiver=fr.receiver))
-                return out
-        if d in ("MismatchError",):
-            return [val(NOTNONE, st)]
-        if d == "self.addDetailUniqueName":
-            return [val(NONE, st.set("ev.details", 1))]
-        return [val(TOP if d not in ("MismatchError",) else NOTNONE, st)]
-
-    def store_attr(self, key, value, st, fr):
-        if key == "self.force_failure":
-            return st.set("ev.forced", 1)
-        return None
-
-    def raised_value(self, stmt, value, st, fr):
-        return ("raised", norm(stmt.exc)[:30])
-
-
 def check_force_honoured(ctx):
-    """The runner's half of "expectThat makes the test fail once it has finished": on the
-    abstract run of RunTest (the same model C01/C03 use), whenever force_failure is set --
-    or may be set, because no stage examined it after the last piece of user code ran --
-    the single outcome is a failing one."""
-    from . import runmodel
-    from .common import RUNTEST
-    ctx.rule("R-FORCE-HONOURED", "a set force_failure flag makes every finished run unsuccessful, whatever the stages raise")
-    rt = ctx.classes.get(RUNTEST, "RunTest")
-    rc = own_method(ctx, RUNTEST, "RunTest", "_run_core")
-    kres, _ = runmodel.analyse_kinds(ctx, rt, kinds=("bad", "soft") if ctx.tier == "quick" else runmodel.KINDS)
-    n_set = 0
-    for label, suffix, ok, r in runmodel.force_verdicts(kres):
-        n_set += label.startswith("force_failure set")
-        ctx.check("R-FORCE-HONOURED", label, rc, ok,
-                  "an expectThat mismatch does not make the finished test fail on this path: the run ends with a success, a skip or an expected failure",
-                  path=runmodel.fmt_log(r.state), construct=f"{RUNTEST}:RunTest._run_core::{suffix}")
-    ctx.check("R-FORCE-HONOURED", "the abstract run reads force_failure and finds it set on some path", rc, n_set >= 1,
-              "no path of the run examines case.force_failure", construct=f"{RUNTEST}:RunTest._run_core::force-read")
-
-
-def verdict_outcomes(ctx, name):
-    """{(verdict, 'val'|'exc', force_failure set?)} over the paths of TestCase.assertThat / expectThat or assertions.assert_that,
-    with matcher.match() returning a symbolic verdict (none / mismatch)."""
-    classes = ctx.classes
-    if name == "assert_that":
-        recv, f = None, module_function(ctx, "testtools.assertions", "assert_that")
-    else:
-        recv = classes.get(TESTCASE, "TestCase")
-        f = own_method(ctx, TESTCASE, "TestCase", name)
-    dom = _VerdictDomain(classes, recv)
-    it = Interp(dom, max_depth=4)
-    res = it.analyze(f, {}, State(), receiver=recv, name=name)
-    ctx.stats["states"] += it.steps
-    for fn in it.functions:
-        ctx.analysed(fn)
-    return f, {(r.state.get("ev.verdict", "?"), r.kind, r.state.get("ev.forced", 0)) for r in res}
+    """expectThat never raises, and a mismatch makes the finished test a failure: TestCase.run followed as written with a
+    scripted matcher (the scenarios of C03's R-EXPECT-FORCES)."""
+    from . import c03
+    from . import casemodel as cm
+    ctx.rule("R-FORCE-HONOURED", "expectThat never raises; a mismatch (force_failure) makes every finished run unsuccessful, whatever the stages raise")
+    c03.check_forced(ctx, cm.case_class(ctx), rule="R-FORCE-HONOURED")
 
 
 def check_assert_iff(ctx):
-    classes = ctx.classes
-    tc = classes.get(TESTCASE, "TestCase")
-    targets = [("assertThat", tc, own_method(ctx, TESTCASE, "TestCase", "assertThat"), "raise"),
-               ("expectThat", tc, own_method(ctx, TESTCASE, "TestCase", "expectThat"), "force")]
+    from ..absint import FALSE, TRUE
+    from ..objects import ObjectDomain, is_inst
+    from .. import effects
+    from . import casemodel as cm
+    from . import streamobjects as so
+    case = cm.case_class(ctx)
+    M, MM = ("wobj", "matcher"), ("wobj", "mismatch")
+    MATCHEE = ("sym", "the matchee")
+    mismatching = {"matcher.match": [("val", MM)], "mismatch.get_details": [("val", ("kwdict", ()))], "mismatch.describe": [("val", ("const", "it differs"))]}
+    matching = {"matcher.match": [("val", NONE)]}
+    Q = f"{TESTCASE}:TestCase.assertThat"
+
+    def error_of(r):
+        """The MismatchError behind the failure outcome of the run: (instance, its attributes)."""
+        for n, pos, kw in cm.events(r, ("result.addFailure",)):
+            d = kw.get("details")
+            for name, c in (d[1] if isinstance(d, tuple) and d[:1] == ("kwdict",) else ()):
+                if isinstance(c, tuple) and c[:2] == ("new", "TracebackContent") and c[2] and isinstance(c[2][0], tuple) and len(c[2][0]) == 4 and is_inst(c[2][0][2]):
+                    e = c[2][0][2]
+                    return e, {a: r.state.get(f"inst.{e[1]}.{a}") for a in ("matchee", "matcher", "mismatch", "verbose")}
+        return None, {}
+
+    # assertThat inside a test: raises exactly when match() gave a mismatch
+    for label, kw_args, answers, want in (("match() returns None", [], matching, "addSuccess"), ("match() returns a mismatch", [], mismatching, "addFailure"),
+                                          ("match() returns a mismatch; verbose=True", [("verbose", TRUE)], mismatching, "addFailure"),
+                                          ("match() returns a mismatch; with a message", [("message", ("const", "while checking"))], mismatching, "addFailure"),
+                                          ("match() returns None; with a message", [("message", ("const", "while checking"))], matching, "addSuccess")):
+        script = {"test": [("call", "assertThat", [MATCHEE, M], kw_args), ("call", "addCleanup", [cm.user("after_assert")], [])], "after_assert": []}
+        d, runs = cm.run_case(ctx, script, answers=answers)
+        problems = set()
+        for r in runs:
+            went_on = "user.after_assert" in cm.names(r, ("user.",))
+            ocs = cm.outcomes(r)
+            asked = [(pos, kw) for n, pos, kw in cm.events(r, ("matcher.match",))]
+            if len(asked) != 1 or asked[0][0] != (MATCHEE,):
+                problems.add(f"matcher.match is called {len(asked)} time(s) with {[a[0] for a in asked]}; expected once with the matchee")
+            if want == "addSuccess" and (not went_on or ocs != ["addSuccess"]):
+                problems.add(f"the matcher matches, yet the test {'stops at assertThat' if not went_on else 'goes on'} and the outcomes are {ocs}")
+            if want == "addFailure":
+                if went_on or ocs != ["addFailure"]:
+                    problems.add(f"the matcher gives a mismatch, yet the test {'goes on after assertThat' if went_on else 'stops'} and the outcomes are {ocs}; expected it to stop with a failure")
+                    continue
+                e, attrs = error_of(r)
+                if e is None or e[2].name != "MismatchError":
+                    problems.add(f"what assertThat raises is {e!r}; expected a MismatchError")
+                    continue
+                if attrs.get("matchee") != MATCHEE or attrs.get("verbose") != dict(kw_args).get("verbose", FALSE):
+                    problems.add(f"the MismatchError is built with matchee {attrs.get('matchee')!r}, verbose {attrs.get('verbose')!r}; expected the matchee and the verbosity given to assertThat")
+                if not dict(kw_args).get("message") and (attrs.get("matcher") != M or attrs.get("mismatch") != MM):
+                    problems.add(f"the MismatchError is built with matcher {attrs.get('matcher')!r}, mismatch {attrs.get('mismatch')!r}; expected the matcher and the mismatch it returned")
+        ctx.check("R-ASSERT-IFF", f"assertThat: {label} -> {'the test goes on' if want == 'addSuccess' else 'MismatchError(matchee, matcher, mismatch, verbose) is raised'}", case.node,
+                  bool(runs) and not problems, "; ".join(sorted(problems)) or "no path of run() was followed to its end", examined=len(runs), construct=f"{Q}::{label}")
+
+    # assertions.assert_that: the same contract without a TestCase
     af = module_function(ctx, "testtools.assertions", "assert_that")
-    targets.append(("assert_that", None, af, "raise"))
-    for name, recv, f, mode in targets:
-        dom = _VerdictDomain(classes, recv)
-        it = Interp(dom, max_depth=4)
-        res = it.analyze(f, {}, State(), receiver=recv, name=name)
-        ctx.stats["states"] += it.steps
-        for fn in it.functions:
-            ctx.analysed(fn)
-        seen = {}
+    params = [a.arg for a in af.args.args]
+    for label, answers, verbose in (("match() returns None", matching, FALSE), ("match() returns a mismatch", mismatching, FALSE), ("match() returns a mismatch; verbose=True", mismatching, TRUE)):
+        dom = so.StreamDomain(ctx.classes, accepting=("matcher", "mismatch"), oracle=lambda n, pos, kw, a=answers: a.get(n))
+        argvals = dict(zip(params, [MATCHEE, M]))
+        if "verbose" in params:
+            argvals["verbose"] = verbose
+        res = effects.run(ctx, dom, af, None, argvals, state=State(), depth=8)
+        problems = set()
         for r in res:
-            v = r.state.get("ev.verdict", "?")
-            seen.setdefault((v, r.kind, r.state.get("ev.forced", 0)), r)
-        for (verdict, kind, forced), r in sorted(seen.items(), key=repr):
-            if verdict == "?":
-                ok = False
-                msg = "a path returns without having consulted matcher.match()"
-            elif mode == "raise":
-                ok = (kind == "exc") == (verdict == "mismatch")
-                msg = (f"{name}: verdict {verdict} but the call {'raises' if kind == 'exc' else 'returns normally'}")
+            if answers is matching:
+                if r.kind != "val":
+                    problems.add(f"the matcher matches, yet assert_that raises {r.value!r}")
+            elif r.kind != "exc" or not is_inst(r.value) or r.value[2].name != "MismatchError":
+                problems.add(f"the matcher gives a mismatch, yet assert_that {'returns' if r.kind == 'val' else 'raises ' + repr(r.value)}; expected a MismatchError")
             else:
-                ok = kind == "val" and (forced == 1) == (verdict == "mismatch")
-                msg = f"{name}: verdict {verdict}, {'raises' if kind == 'exc' else 'returns'}, force_failure {'set' if forced else 'not set'}"
-            ctx.check("R-ASSERT-IFF", f"{name}: verdict={verdict} -> {'raise' if kind == 'exc' else 'return'}{' +force_failure' if forced else ''}", f, ok, msg,
-                      construct=f"{f._module.name}:{name}::verdict={verdict} kind={kind} forced={forced}")
-        if mode == "raise":
-            kinds = {(v, k) for (v, k, _) in seen}
-            ctx.check("R-ASSERT-IFF", f"{name}: both verdicts explored", f, {("none", "val"), ("mismatch", "exc")} <= kinds, f"explored {sorted(kinds)}",
-                      construct=f"{f._module.name}:{name}::explored")
-    # the raised object is a MismatchError built from (matchee, matcher, mismatch, verbose)
-    for modname, qual in ((TESTCASE, "TestCase._matchHelper"), ("testtools.assertions", "assert_that")):
-        f = module_function(ctx, modname, qual)
-        builds = [c for c in walk_shallow(f, include_self=False) if isinstance(c, ast.Call) and dotted(c.func) == "MismatchError"]
-        ok = len(builds) == 1 and len(builds[0].args) == 4 and [dotted(a) for a in builds[0].args][0] == "matchee" and dotted(builds[0].args[3]) == "verbose"
-        ctx.check("R-ASSERT-IFF", f"{qual} builds MismatchError(matchee, matcher, mismatch, verbose)", f, ok,
-                  "the MismatchError is not built from the matchee, the matcher, the mismatch and the verbosity", construct=f"{modname}:{qual}::error")
+                e = r.value
+                got = {a: r.state.get(f"inst.{e[1]}.{a}") for a in ("matchee", "matcher", "mismatch", "verbose")}
+                if got != {"matchee": MATCHEE, "matcher": M, "mismatch": MM, "verbose": verbose}:
+                    problems.add(f"the MismatchError is built with {got!r}; expected the matchee, the matcher, its mismatch and the verbosity")
+        ctx.check("R-ASSERT-IFF", f"assert_that: {label} -> {'returns' if answers is matching else 'raises MismatchError(matchee, matcher, mismatch, verbose)'}", af, bool(res) and not problems,
+                  "; ".join(sorted(problems)) or "no path", examined=len(res), construct=f"testtools.assertions:assert_that::{label}")
+
+    # str() of the MismatchError: the mismatch's description, verbose or not; text / bytes matchees quoted with text_repr, others with repr
+    me = ctx.classes.get("testtools.matchers._impl", "MismatchError")
+    if me is None:
+        raise AnalysisError("anchor vanished: testtools.matchers._impl.MismatchError")
+    QUOTED = ("sym", "the matchee, quoted by text_repr")
+    for matchee, textual in ((("const", "h\u00e9llo \u2603"), True), (("const", b"\xffbytes"), True), (("const", 42), False), (("tuple", ("const", 1), ("const", 2)), False)):
+        for verbose in (FALSE, TRUE):
+            dom = so.StreamDomain(ctx.classes, accepting=("matcher", "mismatch"), oracle=lambda n, pos, kw: [("val", ("const", "it differs"))] if n == "mismatch.describe" else None,
+                                  results={"text_repr": [QUOTED]}, track=lambda d_: d_ == "text_repr")
+            d = so.Driver(ctx, me, dom)
+            res = d.call(d.construct([matchee, M, MM, verbose]), "__str__")
+            d.done()
+            problems = set()
+            for r in res:
+                log = r.state.get("ev.calls", ())
+                if r.kind != "val":
+                    problems.add(f"str() of the error raises {r.value!r}")
+                    continue
+                if len([e for e in log if e[0] == "mismatch.describe"]) != 1:
+                    problems.add("the text does not come from one call of mismatch.describe()")
+                if verbose == FALSE and r.value != ("const", "it differs"):
+                    problems.add(f"the text is {r.value!r}; expected the mismatch's description")
+                quoting = [e for e in log if e[0] == "text_repr"]
+                if verbose == TRUE and textual and (len(quoting) != 1 or quoting[0][1][:1] != (matchee,)):
+                    problems.add(f"a {'text' if isinstance(matchee[1], str) else 'bytes'} matchee is not rendered through text_repr(matchee, ...) (calls: {[e[1] for e in quoting]})")
+                if verbose == TRUE and not textual and quoting:
+                    problems.add("a matchee that is neither text nor bytes is handed to text_repr")
+            kind = "text" if textual and isinstance(matchee[1], str) else "bytes" if textual else "tuple" if matchee[0] == "tuple" else "number"
+            ctx.check("R-ASSERT-IFF", f"str(MismatchError) for a {kind} matchee, verbose={verbose == TRUE}: never raises, describes the mismatch", me.node, bool(res) and not problems,
+                      "; ".join(sorted(problems)) or "no path", examined=len(res), construct=f"testtools.matchers._impl:MismatchError.__str__::{kind} verbose={verbose == TRUE}")
